@@ -221,6 +221,9 @@ class ObjMixin:
             sa, owner = obj.cls.lookup('__setattr__')
             if sa is not None:
                 return self.call(BoundMethod(obj, sa), [name, val], {})
+            chk = self.hooks.get('setattr_check')
+            if chk is not None:
+                chk(self, obj, name, val)
             return self.raw_setattr(obj, name, val)
         if isinstance(obj, ClassInfo):
             hk = self.hooks.get('class_attr_set')
